@@ -63,7 +63,7 @@ impl<'a> Acceptor<'a> {
                 pred_comp.insert((t as u8, i as u8), if pred.is_none() { Some(0) } else { pc });
             }
         }
-        Acceptor { p, mode: Mode { hb: false, any_waiter: true, spurious: true }, comp, res, pred_comp, hist, visited: 0 }
+        Acceptor { p, mode: Mode { hb: false, any_waiter: true, spurious: true, spur_yield: false }, comp, res, pred_comp, hist, visited: 0 }
     }
 
     /// number of leading history entries whose ops are finished in `s`
